@@ -83,6 +83,19 @@ def gen_data(rng, kind, n, p):
                        np.cos(2 * np.pi * t / per[1]), np.sin(2 * np.pi * t / per[1])], axis=1)
         Qm, _ = np.linalg.qr(rng.standard_normal((max(p, 4), max(p, 4))))
         return (Sg @ Qm[:4])[:, :p] if p >= 4 else Sg[:, :p]
+    if kind == "weak":
+        # slow, weak signals under strong fast ones: near-white components of amplitude 2e5..4e5 over AR(1) components of amplitude one, mixed by
+        # a rotation (well conditioned in double precision: amplitude ratio 1e-5, variance ratio 1e-11); every principal component is retained
+        m1 = max(1, p // 2)
+        Y = np.empty((n, p))
+        a = np.concatenate([rng.uniform(0.0, 0.15, m1), np.sort(rng.uniform(0.85, 0.97, p - m1))[::-1]])
+        y = rng.standard_normal(p)
+        for t in range(n):
+            Y[t] = y
+            y = a * y + np.sqrt(1 - a * a) * rng.standard_normal(p)
+        Y[:, :m1] *= rng.uniform(2e5, 4e5, m1)
+        Qm, _ = np.linalg.qr(rng.standard_normal((p, p)))
+        return Y @ Qm
     if kind == "white":
         X = rng.standard_normal((n, p)) * rng.uniform(0.5, 2.0, p)
     else:
@@ -108,7 +121,7 @@ def gen_data(rng, kind, n, p):
 
 
 def make_cfg(rng, i):
-    kind = ["white", "red", "mixed", "wave"][i % 4]
+    kind = ["white", "red", "mixed", "wave", "weak"][i % 5]
     n = int(rng.integers(12, 49))
     p = int(rng.integers(2, 8))
     layout = "x"
@@ -122,9 +135,12 @@ def make_cfg(rng, i):
         layout, use_coslat = "x", False
     rank = min(n - 1, p) if kind != "wave" else 4
     q = int(rng.integers(2, rank + 1))
+    if kind == "weak":
+        n, q = max(n, 40) * 4, rank        # long enough for the weak series to be resolved; all components retained
+        layout, use_coslat = "x", False
     k = int(rng.integers(1, q + 1))
     tm = int(rng.integers(1, n // 3 + 1))
-    cfg = dict(kind=kind, n=n, p=p, q=q, k=k, tau_max=tm, center=bool(rng.random() < 0.8), standardize=bool(rng.random() < 0.3) and kind != "wave",
+    cfg = dict(kind=kind, n=n, p=p, q=q, k=k, tau_max=tm, center=bool(rng.random() < 0.8), standardize=bool(rng.random() < 0.3) and kind not in ("wave", "weak"),
                use_coslat=use_coslat, layout=layout)
     X = gen_data(rng, kind, n, p)
     cfg["history"] = int(rng.integers(1, 1 << 30)) if rng.random() < 0.3 else 0
